@@ -393,6 +393,18 @@ def _build_stmt(g, st, frontier, ctx):
             g.edge(n, "exc", ctx.exc)
         g.edge(n, "return", ctx.ret)
         return []
+    if hasattr(ast, "Match") and isinstance(st, ast.Match):
+        # patterns the normaliser could not turn into an if chain: every case body is an alternative, tests are opaque
+        n = g._new("join", st, {"match": True})
+        _link(g, frontier, n)
+        g.edge(n, "exc", ctx.exc)
+        outs = []
+        for case in st.cases:
+            outs += _build_block(g, case.body, [(n, "case")], ctx)
+        irrefutable = any(isinstance(c.pattern, ast.MatchAs) and c.pattern.pattern is None and c.guard is None for c in st.cases)
+        if not irrefutable:
+            outs.append((n, "nomatch"))
+        return outs
     if isinstance(st, ast.Raise):
         n = g._new("raise", st)
         _link(g, frontier, n)
